@@ -644,6 +644,19 @@ def sd8(F, R):
                     # the helper reads into its own buffer parameter, and read_csd hands it csd.data
                     okb = buf[0] == "arg" and all("data" in tstr(fn.term_of_operand(tt["args"][buf[1] - 1], bb)) for bb, tt in fn.calls() if (callee_of(tt) or "") == f_.npath)
                 R.require(okb, f_, "csd-buffer", "read_data must fill csd.data, got %s" % tstr(buf), f_.loc(b))
+    # once the card has accepted CMD9 and delivered the 16 bytes, read_csd has no refusal of its own: with the card kind
+    # decided, R1 == 0 and every call on the way succeeding, no Err exit is left (a register the card sent is returned as it is)
+    from .specialise import specialise_on as _son
+    def _r1v(q):
+        return from_call(fn, q, "SdCardInner::card_command")
+    for kind in kinds:
+        cut = specialise_enum(fn, is_opt, ["None", "Some"], "Some") + specialise_enum(fn, is_kind, kinds, kind) + _son(fn, _r1v, 0)
+        for cb_, ct_ in fn.calls():
+            if not is_log_call(ct_):
+                cut += failure_edges(fn, cb_)
+        rs = fn.reach([0], cut_edges=cut)
+        own = [x for x in err_returns(fn, adt="Error") if x[0] in rs]
+        R.require(not own, fn, "no-own-refusal:" + kind, "read_csd refuses a register the card delivered (%s card, CMD9 answered 0, read_data succeeded): Err(%s)" % (kind, own[0][2] if own else ""), fn.loc(own[0][0]) if own else fn.loc(0))
     R.require(n9 >= 1 and nrd >= 1, fn, "cmd9+read_data", "read_csd must send CMD9 and read the register with read_data", fn.loc(0))
     for name, meth in (("num_blocks", "card_capacity_blocks"), ("num_bytes", "card_capacity_bytes")):
         f = F.fn(SD + "::" + name)
@@ -1215,6 +1228,13 @@ def sd14(F, R):
         g2b, _ = guarded(f, b, g_cmp("Eq", False, lambda a: has_sub(a, lambda q: q[0] == "call" and q[1] and path_matches(q[1], "SdCardInner::card_command")), lambda z: z[:2] == ("c", 0)))
         oku = g1 and (g2 or not g2b)
     R.require(oku, f, "sdhc-iff-ccs", "SDHC must be chosen iff CMD58 succeeded and (ocr[0] & 0xC0) == 0xC0", f.loc(up[0][0]) if up else None)
+    # a CMD58 that the card answers with an error is refused: no Ok exit from there unless its R1 was tested == 0
+    def _is58(a):
+        return has_sub(a, lambda q: q[0] == "call" and q[1] and path_matches(q[1], "SdCardInner::card_command") and len(q[2]) > 1 and cmd_const(q[2][1])[0] == "CMD58")
+    pass58 = [(gb, gi) for (gb, gi, g) in all_guards(f) if g_cmp("Eq", True, _is58, lambda z: z[:2] == ("c", 0))(g)]
+    r58 = f.reach_after(byname["CMD58"][0], cut_edges=pass58)
+    bad58 = [b_ for (b_, _i, _v) in ok_returns(f) if b_ in r58]
+    R.require(bool(pass58) and not bad58, f, "cmd58-failure-refused", "acquire can succeed although CMD58 was answered with an error R1 (no Cmd58Error): the OCR bytes read then are not an OCR", f.loc(byname["CMD58"][0]))
     # ACMD41 loop leaves only on READY
     oks = ok_returns(f)
     for (b, i, v) in oks:
